@@ -46,7 +46,9 @@ ASSUMPTIONS = ['module objects are planted, not found by a real finder; '
                '__import__ and attribute resolution are real']
 
 # (a package whose name starts with a capital sorts before `__gin__`)
-MODULES = ['vq0.sub.mod', 'vq0.other.mod', 'vq1.mod', 'Vq2.mod']
+# ('vq0.sub.modb' is a sibling of 'vq0.sub.mod': one alias for both, in two
+# files, names two different modules of one package)
+MODULES = ['vq0.sub.mod', 'vq0.other.mod', 'vq1.mod', 'Vq2.mod', 'vq0.sub.modb']
 OBJECTS = {
     # `fn0v` is fn0 under an ordinary functools.wraps decorator: another object
     'vq0.sub.mod': ['fn0', 'fn1', 'K0', 'K0.meth', 'K0.Inner', 'K1', 'consume',
@@ -57,6 +59,7 @@ OBJECTS = {
     # Python names, before any file is parsed
     'vq1.mod': ['fn2', 'K0', 'K0.meth', 'consume', 'lazyfn', 'sfn', 'SK'],
     'Vq2.mod': ['fn0', 'K1', 'consume', 'fn0v'],
+    'vq0.sub.modb': ['fn0', 'K1', 'consume'],
 }
 PARAMS = {'fn0': ['a', 'b'], 'fn1': ['a', 'b'], 'fn2': ['a', 'b'],
           'K0': ['a', 'b'], 'K1': ['a', 'b'], 'K0.meth': ['mp'],
@@ -358,6 +361,28 @@ def run(case):
   bound = [bound_name(i) for f in files for i in f['imports']]
   stats['collisions'] = len(bound) - len(set(bound))
 
+  # gin names a dynamically registered object `<package of the module>.<bound
+  # name>.<path>`: with `import a.b as x` that is a.x, not a.b.  Two different
+  # modules can therefore end up under one registry name (same alias for two
+  # sibling modules, or an alias that reads like a sibling's real name).
+  alias_derived = {}
+  real_names = set()
+  for f in files:
+    for imp in f['imports'] + ([f['late_import']['imp']]
+                               if f.get('late_import') else []):
+      real_names.add(imp['module'])
+      if imp.get('alias'):
+        derived = '.'.join(imp['module'].split('.')[:-1] + [imp['alias']])
+        alias_derived.setdefault(derived, set()).add(imp['module'])
+  name_collision = any(len(ms) > 1 for ms in alias_derived.values()) or any(
+      d in real_names and ms != {d} for d, ms in alias_derived.items())
+
+  def collision_disc(e):
+    if name_collision and isinstance(e, ValueError) and \
+        'A different configurable matching' in str(e):
+      return ['alias-derived-registry-name-collision']
+    return []
+
   depth0 = len(getattr(world.config, '_PARSE_CONTEXTS', []))
   exc = None
   if case.get('pre_static'):
@@ -376,7 +401,7 @@ def run(case):
   log.add('parse', type(exc).__name__ if exc else None)
   text0 = file_text(files[0], files)
   if exc is not None:
-    v('C19.parse_succeeds', [type(exc).__name__],
+    v('C19.parse_succeeds', [type(exc).__name__] + collision_disc(exc),
       'parsing\n%s\nraised %s: %s' % (
           '\n---\n'.join(file_text(f, files) for f in files),
           type(exc).__name__, probes.scrub(str(exc))[:400]))
@@ -504,7 +529,8 @@ def run(case):
         exc2 = e
       log.add('twin', type(exc2).__name__ if exc2 else None)
       if exc2 is not None:
-        v('C19.config_str_reparses', [type(exc2).__name__],
+        v('C19.config_str_reparses',
+          [type(exc2).__name__] + collision_disc(exc2),
           'config_str() of the parsed world does not parse in a reset world: '
           '%s: %s\n%s' % (type(exc2).__name__,
                           probes.scrub(str(exc2))[:300], text))
